@@ -61,7 +61,8 @@ def iso_links(tier):
 
 
 LINKDEV = {"reverse", "closed", "cv", "K5", "D100", "D600", "C60", "C140", "L50", "L2000", "hpump1", "hpump2", "hpump3",
-           "ppump", "valve", "piecewise", "hyd15all", "small", "near_max", "near_min", "elev_high", "pdd", "revorder"}
+           "ppump", "valve", "piecewise", "hyd15all", "small", "near_max", "near_min", "elev_high", "pdd", "revorder",
+           "headpat", "pstart1h", "pstart90m", "hyd30", "ctl_toggle"}
 
 
 EDITS = [
@@ -123,6 +124,11 @@ def cases(tier):
     keep = lambda d: d["k"] in LINKDEV
     if tier == "quick":
         out += ns.enumerate_cases(1, keep=keep)
+        # source heads that move during the run: head pattern x pattern start / step
+        named = [{"headpat", "pstart1h"}, {"headpat", "pstart90m"}, {"headpat", "hyd30"}, {"headpat", "reverse"}]
+        names = set().union(*named)
+        out += [c for c in ns.enumerate_cases(2, keep=lambda d: d["k"] in names, pairs_keep=lambda a, b: {a["k"], b["k"]} in named)
+                if len(c["id"]["devs"]) == 2]
     else:
         out += ns.enumerate_cases(2, keep=keep)
     return out
